@@ -287,6 +287,17 @@ def check_table(ctx):
         if not got or not got <= want:
             wrong = sorted(got - want) or ['(no path)']
             p0, unk0 = outs[wrong[0]][0] if wrong[0] in outs else (None, [])
+            for c in unk0:
+                xe = t.expand(c.expr) if isinstance(c.expr, ast.AST) else None
+                if xe is not None and any(
+                        isinstance(n, ast.BinOp) and isinstance(
+                            n.op, (ast.BitAnd, ast.BitOr, ast.BitXor))
+                        for n in ast.walk(xe)):
+                    raise AnalysisError(
+                        'the deprecated-rule handler decides through a set '
+                        'expression (`%s`): which of the documented '
+                        'questions (old name overridden, new name '
+                        'overridden) it asks is not read' % U(xe)[:80])
             key = (tuple(sorted(want)), tuple(wrong))
             bad.setdefault(key, dict(a, expected=sorted(want),
                                      got=sorted(got),
